@@ -438,6 +438,10 @@ type FnResult struct {
 
 func (e *Engine) verifyFunction(key string, ct *Contract) (res *FnResult) {
 	res = &FnResult{Key: key, Display: shortKey(key)}
+	if ct.Trusted {
+		res.Trusted = true
+		return
+	}
 	fn := e.fnByKey[key]
 	if fn == nil {
 		res.Err = fmt.Sprintf("contract %s (%s:%d) does not match any function", shortKey(key), ct.File, ct.Line)
@@ -513,6 +517,10 @@ func (e *Engine) verifyFunction(key string, ct *Contract) (res *FnResult) {
 	for _, c := range ct.Requires {
 		fc.assume(st, fc.guarded(func() string { return fc.hyp(env, c.E) }, c))
 	}
+	for _, c := range ct.Domain {
+		fc.assume(st, fc.guarded(func() string { return fc.hyp(env, c.E) }, c))
+		fc.note("%s is verified only for inputs with: %s", shortKey(key), c.Src)
+	}
 	fc.pre.guard = st.guard
 	fc.cover(st, "cover:requires", fn.Pos(), "preconditions are satisfiable")
 	nret := 0
@@ -544,6 +552,11 @@ func (e *Engine) verifyFunction(key string, ct *Contract) (res *FnResult) {
 			fc.frameCheck(rs, env, ret.Pos())
 		}
 	})
+	for _, a := range ct.Asserts {
+		if fc.assertHit[a] == 0 {
+			res.Err = fmt.Sprintf("contract error: assert %q of %s: anchor %q matches no instruction", a.Name, shortKey(key), a.At)
+		}
+	}
 	for ord := range ct.Loops {
 		found := false
 		for _, li := range findLoops(fn) {
